@@ -1,0 +1,13 @@
+//go:build verif
+
+package octreequant
+
+/*@
+-- Colour quantisation builds its own octree and a new paletted image; it reads the source image through
+-- At/Bounds only. The frame below is ASSUMED (the quantiser is not under contract): it is what lets the
+-- caller's facts about the image size survive the call.
+func Paletted(img image.Image, colors int) *image.Paletted
+  assume true -- frame of the quantiser taken on trust: touches only objects it allocates
+  modifies nothing
+  ensures result != nil
+@*/
